@@ -32,6 +32,10 @@ func Verif_C47_acceptedFile() {
 			Address: pool[verifChoice("addr", len(pool))], Supply: verifBig("supply"), Balance: verifBig("balance"), StakingValue: verifBig("staked"),
 			Delegation: &data.DelegationData{Address: pool[2], Value: verifBig("delegated")},
 		}
+		if verifParam("concreteAmounts") == 1 {
+			// duplicate detection run: valid fixed amounts, only the addresses vary
+			ia.Supply, ia.Balance, ia.StakingValue, ia.Delegation.Value = big.NewInt(3), big.NewInt(1), big.NewInt(1), big.NewInt(1)
+		}
 		ap.initialAccounts = append(ap.initialAccounts, ia)
 	}
 	if ap.process() != nil {
